@@ -131,4 +131,4 @@ def main():
 
 
 if __name__ == '__main__':
-    main()
+    guarded_main('C09', main)
